@@ -97,6 +97,22 @@ def check_monoid(inp):
     ref[k] = np.asarray(st.result())
     if np.isnan(ref[k]).any():
       return f'{k}: NaN from merging single-example statistics'
+  # the per-client evaluator class (what the packaged evaluation functions and algorithms call): both entry points, two
+  # clients with different batchings of the same examples, must give the reference for each client
+  sizes0, pad0 = inp['partitions'][-1]
+  sizes1, pad1 = inp['partitions'][min(3, len(inp['partitions']) - 1)]
+  me = models.ModelEvaluator(model)
+  cl = [(b'a', batches(d, n, sizes0, pad0, seed)), (b'b', batches(d, n, sizes1, pad1, seed))]
+  for which, outs in (('evaluate_global_params', list(me.evaluate_global_params(None, cl))),
+                      ('evaluate_per_client_params', list(me.evaluate_per_client_params([(c, b, {'unused': jnp.zeros(1)}) for c, b in cl])))):
+    if [c for c, _ in outs] != [b'a', b'b']:
+      return f'ModelEvaluator.{which}: results for {[c for c, _ in outs]}, expected one per client in order'
+    for c, got in outs:
+      for k in mm:
+        g = np.asarray(got[k])
+        if np.isnan(g).any() or not close(g, ref[k]):
+          return (f'ModelEvaluator.{which}, client {c}: {k} = {g}, single-example merge gives {ref[k]} '
+                  f'(partitions {sizes0}/{pad0} and {sizes1}/{pad1})')
   for sizes, pad in inp['partitions']:
     bs = batches(d, n, sizes, pad, seed)
     for order in (bs, bs[::-1]):
